@@ -7,7 +7,6 @@ package c09
 import (
 	"bytes"
 	"encoding/json"
-	"fmt"
 	"sort"
 	"strings"
 
@@ -291,5 +290,3 @@ func short(err error) string {
 	}
 	return s
 }
-
-var _ = fmt.Sprint
